@@ -441,7 +441,11 @@ def check_step(ctx, slim, si, run, before, real, ops, ids):
     for real_path, w in last.items():
         e = after.get(real_path)
         want = ids.get(w["tag"] + "p" * npp)
-        if e is None or e[0] != "F" or e[2] != want:
+        if e is not None and e[0] == "D" and w["kind"] == "C":
+            ctx.fail({"kind": "fsx-copy-into-directory"},
+                     "a copied resource whose output path is a directory: the run succeeds, the output path still is a directory (the file went inside it)",
+                     dict(rp, path=w["path"], got=e))
+        elif e is None or e[0] != "F" or e[2] != want:
             ctx.fail({"kind": "fsx-overwrite-content"}, "after a successful overwriting run an output does not read as the content of this run",
                      dict(rp, path=w["path"], resolves_to=real_path, got=e))
         elif fm is not None and e[1] != fm:
